@@ -115,8 +115,6 @@ func (d *Do) appendParameterBeforeTypeCalculate(
 			return blockParamaters
 		}
 
-		tmpParameters := [20]*base.T{}
-
 		if len(lastEvaluatedT.UnifyVariants().GetVariants()) == 0 {
 			blockParamaters =
 				append(blockParamaters, *lastEvaluatedT.UnifyVariants())
@@ -129,6 +127,21 @@ func (d *Do) appendParameterBeforeTypeCalculate(
 		if lastEvaluatedT.IsArrayType() {
 			targetRangeT = lastEvaluatedT.GetVariants()
 		}
+
+		// one slot per element position: as many as the longest (nested) literal has
+		slots := len(targetRangeT)
+
+		for _, variant := range targetRangeT {
+			if variant.GetType() == base.ARRAY && len(variant.GetVariants()) > slots {
+				slots = len(variant.GetVariants())
+			}
+		}
+
+		if slots < 1 {
+			slots = 1
+		}
+
+		tmpParameters := make([]*base.T, slots)
 
 		for idx, variant := range targetRangeT {
 			switch variant.GetType() {
